@@ -25,11 +25,12 @@ def run(ctx):
         ('leaf_end_pos', 'Leaf value of length <=3 over all of Unicode, any start line >= 1 / column >= 0', 'value, line, column'),
         ('pyleaf_end_pos', 'String / FStringString / error leaf / Newline / EndMarker values of length <=3 over Unicode', 'value, line, column, class'),
         ('first_leaf_prefix_start', 'first leaf with a prefix of length <=3 over all of Unicode', 'prefix'),
+        ('prefix_start_after_first_indent_error', 'leading zero-width INDENT/ERROR_DEDENT error leaf, prefix of length <=3 over all of Unicode', 'prefix, token type'),
         ('prefix_start_after_error_leaf', 'leaf after a zero-width INDENT/DEDENT/ERROR_DEDENT (or a real) error leaf; previous value len<=2', 'value, position, token type'),
     ]]
     C.append(xh.Cond(U, 'leaf_end_pos', timeout=120, path_timeout=30, twin='end-pos-ignores-cr'))
     ks = [13, 24, 3] if q else list(range(len(P.HOLES)))
     C += PC.text_holes(ctx, own, ks, vis=(4,), timeout=900 if q else 2400)
     C += PC.spell_holes(ctx, own, [2, 5] if q else range(len(P.SPELL)))
-    C += PC.label_holes(ctx, own, _pipe.pick(ctx, 1, len(P.SKELS), 5) if q else range(len(P.SKELS)), vis=(4,) if q else (0, 4, 8))
+    C += PC.label_holes(ctx, own, [P.skel('# h')] + _pipe.pick(ctx, 1, len(P.SKELS), 5) if q else range(len(P.SKELS)), vis=(4,) if q else (0, 4, 8))
     xh.run_conditions(ctx, C)
